@@ -30,11 +30,14 @@ GPU = ['take', 'answer']
 POINTS = ['app@' + p for p in APP] + ['ra@' + p for p in RA] + ['eng@' + p for p in ENG]
 # (NA, rounds, per_round, threads using the blocking API in one shared context, cfg tag)
 CONFIGS = [(1, 2, 1, [], '1_2_1'), (2, 2, 1, [1, 2], 't2'), (2, 2, 1, [], '2_2_1'), (2, 2, 1, [2], 'mx'), (1, 2, 2, [], '1_2_2'),
-           (1, 2, 2, [], 'w1'), (2, 2, 1, [], 'wx'),
-           (2, 1, 2, [], '2_1_2'), (3, 1, 1, [], '3_1_1'), (3, 1, 1, [2, 3], 't3'), (2, 2, 2, [], '2_2_2'), (2, 2, 1, [], 'w2')]
+           (1, 2, 2, [], 'w1'), (2, 2, 1, [], 'wx'), (2, 2, 1, [], 'd2'), (2, 2, 1, [], 'd2w'),
+           (2, 1, 2, [], '2_1_2'), (3, 1, 1, [], '3_1_1'), (3, 1, 1, [2, 3], 't3'), (2, 2, 2, [], '2_2_2'), (2, 2, 1, [], 'w2'),
+           (3, 1, 1, [], 'd3')]
 # threads whose commands are two-phase memory copies answered by the stub GPU, per cfg tag
-TWO = {'w1': [1], 'wx': [2], 'w2': [1, 2]}
-QUICK_N = 7
+TWO = {'w1': [1], 'wx': [2], 'w2': [1, 2], 'd2w': [1]}
+# threads that own no queue and only drain the queue of thread 1 (several waiters on one queue), per cfg tag
+DRAINERS = {'d2': [2], 'd2w': [2], 'd3': [2, 3]}
+QUICK_N = 9
 
 
 def tspec(cfg):
@@ -61,7 +64,8 @@ def hold_scenarios(cfg, rng, limit):
     sets = [[]] + [[x] for x in points] + [list(c) for c in itertools.combinations(points, 2)]
     if na > 1:
         sets += [['app1@' + x] for x in APP] + [['app2@' + x, 'eng@' + y] for x in ('check', 'wait', 'signal') for y in ENG]
-    sc = [{'na': na, 'rounds': r, 'per_round': p, 'mode': 'hold', 'hold': h, 'reverse': rev, 'temp': temp, 'two': two}
+    sc = [{'na': na, 'rounds': r, 'per_round': p, 'mode': 'hold', 'hold': h, 'reverse': rev, 'temp': temp, 'two': two,
+           'drainers': DRAINERS.get(tag, [])}
           for h in sets for rev in (False, True) if temp or not any('create' in x for x in h)]
     if limit and len(sc) > limit:
         # always keep the singletons (they include the two historical hang schedules), sample the pairs
@@ -152,14 +156,14 @@ def run(ctx, selftest=False):
 
     # 1. design-level model checking
     for cfg, workers, to in [('MC_fixed_NA1.cfg', 4, 300), ('MC_fixed_NA2.cfg', 8, 900), ('MC_fixed_mixed.cfg', 8, 900),
-                             ('MC_fixed_two1.cfg', 4, 300), ('MC_fixed_twomix.cfg', 8, 900)]:
+                             ('MC_fixed_two1.cfg', 4, 300), ('MC_fixed_twomix.cfg', 8, 900), ('MC_fixed_dr2.cfg', 8, 900)]:
         r = ctx.tlc_expect_ok(['cmdqueue'], 'CmdQueue.tla', cfg, workers=workers, timeout=to,
                               coverage=(cfg == 'MC_fixed_NA1.cfg'))
         ctx.log('%s: %d distinct states (safety + liveness)' % (cfg, r.distinct))
         if cfg == 'MC_fixed_NA1.cfg':
             ctx.cov['coverage_zero_actions'] = r.coverage_zero()
     if thorough:
-        for cfg in ('MC_fixed_temp2.cfg', 'MC_fixed_two2.cfg', 'MC_fixed_NA2big.cfg', 'MC_fixed_NA3.cfg'):
+        for cfg in ('MC_fixed_temp2.cfg', 'MC_fixed_two2.cfg', 'MC_fixed_dr2two.cfg', 'MC_fixed_dr3.cfg', 'MC_fixed_NA2big.cfg', 'MC_fixed_NA3.cfg'):
             r = ctx.tlc_expect_ok(['cmdqueue'], 'CmdQueue.tla', cfg, workers=vlib.NCPU, timeout=3000)
             ctx.log('%s: %d distinct states' % (cfg, r.distinct))
         ctx.cov['exhaustive'] = True
@@ -179,17 +183,17 @@ def run(ctx, selftest=False):
         scen = []
         if ci == 0:
             scen += hold_scenarios(cfg, rng, None if thorough else 140)
-        elif ci in (1, 2, 3, 5, 6) or thorough:
+        elif ci in (1, 2, 3, 5, 6, 7, 8) or thorough:
             scen += hold_scenarios(cfg, rng, 400 if thorough else 70)
         behs, _ = ctx.simulate(['cmdqueue'], 'CmdQueueScen.tla', 'CmdQueueScen_%s.cfg' % tag,
                                num=(150 if thorough else 25), depth=40 * na * rnd * (per + 1), seed=ctx.seed + ci)
         for b in behs:
             sched = [st['act'] for st in b[1:] if st.get('act') not in (None, 'init')]
             scen.append({'na': na, 'rounds': rnd, 'per_round': per, 'mode': 'schedule', 'schedule': sched, 'temp': temp,
-                         'two': TWO.get(tag, [])})
+                         'two': TWO.get(tag, []), 'drainers': DRAINERS.get(tag, [])})
         for k in range(200 if thorough else 25):
             scen.append({'na': na, 'rounds': rnd, 'per_round': per, 'mode': 'random', 'seed': ctx.seed * 1000 + ci * 100 + k,
-                         'temp': temp, 'two': TWO.get(tag, [])})
+                         'temp': temp, 'two': TWO.get(tag, []), 'drainers': DRAINERS.get(tag, [])})
         groups.append((cfg, scen))
     ctx.sample({'hold_scenario': groups[0][1][1], 'tlc_schedule_scenario': next(s for s in groups[0][1] if s['mode'] == 'schedule')})
 
@@ -290,7 +294,7 @@ def replay(ctx, path):
         if r['e'] == 'Step':
             sched.append('app%d' % r['a'] if r['t'] == 'app' else r['t'])   # 'gpu' steps are replayed by kind
     scen = [{'na': cfg[0], 'rounds': cfg[1], 'per_round': cfg[2], 'mode': 'schedule', 'schedule': sched, 'temp': cfg[3],
-             'two': TWO.get(cfg[4], [])}]
+             'two': TWO.get(cfg[4], []), 'drainers': DRAINERS.get(cfg[4], [])}]
     t, stats = run_group(ctx, drv, cfg, scen, 'replay')
     before = len(ctx.violations)
     common.validate_and_triage(ctx, tspec(cfg), t, {'cmd': 'c12', 'cfg': list(cfg)})
